@@ -161,6 +161,14 @@ func SeqCmd(args []string) {
 					in["targetPrefix"] = strings.Repeat("f", 64)
 				}
 				in["message"] = fmt.Sprintf("message %d", k1)
+			case "editCommentAmbiguous":
+				// the first character of a combined id: shared by every comment of the bug
+				field, typ = "editComment", "EditCommentInput"
+				delete(in, "prefix")
+				b, err := w.rc.Bugs().Resolve(id)
+				hx.Must(err)
+				in["targetPrefix"] = string(b.Snapshot().Comments[0].CombinedId())[:1]
+				in["message"] = fmt.Sprintf("message %d", k1)
 			case "changeLabels":
 				typ = "ChangeLabelInput"
 				in["added"], in["Removed"] = orEmpty(r.Add), orEmpty(r.Rem)
